@@ -1118,3 +1118,78 @@ func digestSites(f *ssa.Function) (sites []ssa.Instruction, operands []ssa.Value
 	})
 	return
 }
+
+// ---------- exit actions ----------
+
+// exitAct: one thing a function does on its way out, because it was deferred: a call of a function, or the close of a
+// channel. Deferred closures (and deferred module functions with a body) are expanded into the calls/closes they
+// contain; a directly deferred call (`defer del(t.Hash)`, `defer close(t.Deleted)`) is one action.
+type exitAct struct {
+	Callee *ssa.Function // for calls
+	Close  ssa.Value     // the channel, for close(ch)
+	Instr  ssa.Instruction
+	Defer  *ssa.Defer
+}
+
+// exitActions lists f's exit actions in the order they execute: defers run last-registered first; inside a deferred
+// body the instructions keep their order (by position).
+func exitActions(f *ssa.Function) []exitAct {
+	var defers []*ssa.Defer
+	allInstrs(f, func(in ssa.Instruction) {
+		if d, ok := in.(*ssa.Defer); ok {
+			defers = append(defers, d)
+		}
+	})
+	// registration order: by dominance, else by position
+	sort.SliceStable(defers, func(i, j int) bool {
+		if instrDominates(defers[i], defers[j]) {
+			return true
+		}
+		if instrDominates(defers[j], defers[i]) {
+			return false
+		}
+		return defers[i].Pos() < defers[j].Pos()
+	})
+	var out []exitAct
+	for k := len(defers) - 1; k >= 0; k-- {
+		d := defers[k]
+		if bi, ok := d.Call.Value.(*ssa.Builtin); ok {
+			if bi.Name() == "close" && len(d.Call.Args) == 1 {
+				out = append(out, exitAct{Close: d.Call.Args[0], Instr: d, Defer: d})
+			}
+			continue
+		}
+		df := deferredFunc(d)
+		if df == nil {
+			continue
+		}
+		if df.Blocks == nil || (df.Parent() == nil && !strings.HasPrefix(funcPkgPath(df), modPath)) {
+			out = append(out, exitAct{Callee: df, Instr: d, Defer: d})
+			continue
+		}
+		if df.Parent() == nil {
+			// a named module function deferred directly: the call itself is the action (its body is its own business)
+			out = append(out, exitAct{Callee: df, Instr: d, Defer: d})
+			continue
+		}
+		var body []ssa.Instruction
+		allInstrs(df, func(in ssa.Instruction) { body = append(body, in) })
+		sort.SliceStable(body, func(i, j int) bool { return body[i].Pos() < body[j].Pos() })
+		for _, in := range body {
+			c, ok := in.(*ssa.Call)
+			if !ok {
+				continue
+			}
+			if bi, ok := c.Call.Value.(*ssa.Builtin); ok {
+				if bi.Name() == "close" && len(c.Call.Args) == 1 {
+					out = append(out, exitAct{Close: c.Call.Args[0], Instr: in, Defer: d})
+				}
+				continue
+			}
+			if cal := c.Call.StaticCallee(); cal != nil {
+				out = append(out, exitAct{Callee: cal, Instr: in, Defer: d})
+			}
+		}
+	}
+	return out
+}
